@@ -867,6 +867,8 @@ def gen_C10(rng, count, tier):
             tail.append(pick(rng, ["turn", "turn", "ackall", "ack:100", "ack:70000", "peerclose", "killserver" if rng.random() < 0.3 else "turn"]))
         pos = rng.randrange(1, len(evs) + 1)
         if rng.random() < 0.3:
-            evs.insert(pos, pick(rng, ["peerclose", "killserver", "turn"]))
+            mid = pick(rng, ["peerclose", "killserver", "turn"])
+            # no segment is delivered on a connection the client has already left
+            evs = evs[:pos] + [mid] + ([] if mid != "turn" else evs[pos:])
         toks = ["kind:" + kind, "root:" + hx(FSROOT.encode())]
         yield ("life", " ".join(toks + evs + tail))
